@@ -139,7 +139,8 @@ def _gen_trav(src, level, counter):
     src.append('template<typename V, typename C> static void travL_%d(V v, C& c, c10::ctrav& t) {' % uid)
     src.append('  (void)v; (void)c; (void)t;')
     for f in level_fields(level):
-        src.append('  C10_ACC(t, v, %s, c) (void)v.%s(c);' % (f['name'], f['name']))
+        # scalar fields: getters and setters (C10_ACCS); composite / array fields are obtained as views only
+        src.append('  %s(t, v, %s, c) (void)v.%s(c);' % ('C10_ACC' if f['is_view'] else 'C10_ACCS', f['name'], f['name']))
     for g, cu in zip(level['groups'], children):
         src.append('  { C10_ACC(t, v, %s, c) auto g = v.%s(c);' % (g['name'], g['name']))
         src.append('    for(auto e : g.cursor_range(c)) { travL_%d(e, c, t); } }' % cu)
@@ -617,6 +618,10 @@ class Spec:
 
 
 CVARS = ['plain', 'init', 'dont_move', 'init_dont_move', 'skip']
+# setter variants of scalar fields: `v.NAME(value, wrapper)`; `skip` has no setters
+SETVARS = ['set.plain', 'set.init', 'set.dont_move', 'set.init_dont_move']
+# variant number of the protocols (harness/c10_driver.hpp `ctrav`, Drive/C10.lean `ctrav`)
+VARNUM = {v: i for i, v in enumerate(CVARS + SETVARS)}
 
 
 def clevel_sexp(level, base_off=0):
@@ -629,13 +634,19 @@ def clevel_sexp(level, base_off=0):
     return '(cl (fields %s) (groups %s) (datas %s))' % (fs, gs, ds)
 
 
-def lean_ctrav_request(bo, base, img, ns, m, needs, detail=False):
+def lean_ctrav_request(bo, base, img, ns, m, runs, detail=False):
+    """runs: [(k, var, needs_end, ...)] with var in CVARS + SETVARS"""
     bl = [l for l in m['hdrLeaves'] if l['path'] == ['blockLength']][0]
     # `abs` of message fields includes the header; `rel` is relative to the cursor, which init_cursor puts behind it
     lv = clevel_sexp(m['level'], m['hdrSize'])
-    return 'ctrav (req (bo %s) (base %d) (img x%s) (ns %s) (cmsg (hdr %d %d %d) %s) (needs %s)%s)' % (
+    return 'ctrav (req (bo %s) (base %d) (img x%s) (ns %s) (cmsg (hdr %d %d %d) %s) (runs %s)%s)' % (
         'be' if bo == 'big' else 'le', base, ''.join('%02x' % b for b in img), ns, m['hdrSize'], bl['off'], bl['size'],
-        lv, ' '.join(str(min(x, INF)) for x in needs), ' (detail)' if detail else '')
+        lv, ' '.join('(%d %d %d)' % (r[0], VARNUM[r[1]], min(r[2], INF)) for r in runs), ' (detail)' if detail else '')
+
+
+def cpp_ctrav_runs(runs):
+    """the run list of a `ctrav` driver line (`0`: no runs)"""
+    return ';'.join('%d:%d' % (r[0], VARNUM[r[1]]) for r in runs) or '0'
 
 
 class CursorSpec:
@@ -655,9 +666,9 @@ class CursorSpec:
             pass
         self.huge = spec.cur.huge
 
-    def _add(self, kind, needs, view):
+    def _add(self, kind, needs, view, field=None):
         self.members.append({'kind': kind, 'pre': self.pending, 'needs': needs, 'view': view,
-                             'max_view': max(self.max_view, self.s.cur.max_view)})
+                             'max_view': max(self.max_view, self.s.cur.max_view), 'field': field})
         self.pending = 0
 
     def _lv_end(self, view):
@@ -674,7 +685,12 @@ class CursorSpec:
         for f in level_fields(level, base_off):
             nd = view['vb'] + f['abs'] + (0 if f['is_view'] else f['size'])
             kind = 'cursor.field.' + ('view' if f['is_view'] else 'scalar') + ('.last' if f['last'] else '')
-            self._add(kind, {v: nd for v in CVARS}, view['vb'])
+            # a setter accesses the bytes the getter of the same wrapper accesses (Properties/C10:
+            # cursor_setter_as_getter); `field`: where the plain cursor stands before the accessor, the gap
+            # (cursor-relative offset) and the size, for the coverage counters
+            self._add(kind, {v: nd for v in CVARS}, view['vb'],
+                      None if f['is_view'] else {'cur': view['vb'] + f['abs'] - f['rel'], 'rel': f['rel'],
+                                                 'size': f['size'], 'last': f['last']})
             # the cursor behind the field is the base pointer of the next accessor's check
             self.max_view = max(self.max_view, view['vb'] + f['abs'] + f['size'])
         if not level['groups'] and not level['datas']:
@@ -736,13 +752,19 @@ class CursorSpec:
     def past_end(self, k, n):
         return self.members[k]['max_view'] > n
 
-    def runs(self):
-        """[(k, var, needs_end, kind)] in the driver's order"""
+    def runs(self, max_members=None):
+        """[(k, var, needs_end, kind)]: every member through the five getter variants; scalar fields also through
+        the four setter variants (needs of a setter run = needs of the getter run of the same wrapper)"""
         out = []
         acc = self.s.m['hdrSize']     # init_cursor: header check
         for k, mem in enumerate(self.members):
+            if max_members is not None and k >= max_members:
+                break
             for v in CVARS:
                 out.append((k, v, max(acc, mem['pre'], mem['needs'][v]), mem['kind']))
+            if mem['field'] is not None:
+                for v in SETVARS:
+                    out.append((k, v, max(acc, mem['pre'], mem['needs'][v[4:]]), mem['kind']))
             acc = max(acc, mem['pre'], mem['needs']['plain'])
         return out
 
